@@ -92,6 +92,9 @@ CHECKS = {
             "timeout": {"quick": "10m", "thorough": "60m"},
             "covers": {"VerifC14Injective": ["same-inputs", "different-inputs"]},
         }, {
+            "pkg": ODB, "funcs": ["VerifC14Reuse"],
+            "covers": {"VerifC14Reuse": ["created-with-reused-values", "opened-with-the-same-options"]},
+        }, {
             "pkg": ROOT, "funcs": ["VerifC14Helpers"],
             "covers": {"VerifC14Helpers": ["created", "reopened"]},
         }, {
@@ -104,6 +107,7 @@ CHECKS = {
             "real orbitDB instances (newOrbitDB, DetermineAddress, Create, Open, createStore, haveLocalData, addManifestToCache), the real manifest code, acutils, the real ipfs access controller Save/Load, address.Parse/IsValid, the real path.Join/Clean and the real cache manager (cacheleveldown) over a disk model",
             "name = symbolic string of length 0..L over ALL byte values; type in {eventlog, keyvalue, docstore}; explicit write list of 1..3 ids (symbolic) or none; two peers with different identities, peer ids and directories; plus names of the shape <3 symbolic bytes> + <root of another database> + '/v'",
             "CIDs are perfect hashes of an idealised CBOR encoding whose field lists are recorded from the atlases registered by the real source; cid.Decode accepts exactly the stand-in tokens",
+            "reused values (VerifC14Reuse): ONE access-controller parameter value and (optionally) ONE options value are used for Create of a first database (optionally closed and opened again with it), given another write list, then used for DetermineAddress and Create of a second database: address = the one a fresh peer computes from the inputs alone = the one DetermineAddress predicts; write list = the one given at that creation",
             "public package (VerifC14Helpers, package orbitdb): orbitdb.NewOrbitDB (default store types and controllers registered) and the typed helpers Log / KeyValue / Docs: type of the created store, refusal to open the address through a helper of another type, reopen through the right helper on a new instance with the data",
             "address round trip (VerifC14AddressRoundTrip, package address): name = symbolic string of 0..L bytes over ALL byte values; the address is built as DetermineAddress builds it (Parse of path.Join(\"/orbitdb\", root, name), kept only when rooted at the manifest); its printed form must be valid, parse back to the same root and path, and print again identically",
         ],
@@ -249,6 +253,11 @@ CHECKS = {
             "max_paths": {"quick": 60000, "thorough": 400000},
             "covers": {"VerifC05Reopen": ["attempt-failed", "by-address", "by-name", "reopened"]},
         }, {
+            "pkg": BS, "funcs": ["VerifC05Sessions"],
+            "params": {"quick": {"T": 2, "S": 2}, "thorough": {"T": 3, "S": 3}},
+            "max_paths": {"quick": 60000, "thorough": 400000},
+            "covers": {"VerifC05Sessions": ["partial-load", "wrote-in-session", "second-handle", "reloaded"]},
+        }, {
             "pkg": ODB, "funcs": ["VerifC05Identity"],
             "covers": {"VerifC05Identity": ["created", "restarted-same-identity", "other-directory", "in-memory", "still-open"]},
         }],
@@ -256,6 +265,7 @@ CHECKS = {
             "history of STEPS steps on one store, each a local write (symbolic payload) or a real replication of a batch written by a remote writer (Sync -> replicator -> fetcher -> Join -> cache write -> EventReplicated)",
             "the store's block store and cache append every mutation to ONE ordered effect log; each effect is durable once its call returns (as the property assumes)",
             "acknowledgement instants: return of AddOperation, emission of EventReplicated (observed synchronously in the emitting goroutine); crash index = a symbolic integer over [0, #effects]; recovered disk = that prefix; fresh store + real Load(-1)",
+            "clean sessions (VerifC05Sessions): T local writes and a replicated concurrent entry (local + remote cached heads), then S sessions of reopen + Load with any limit in 1..total or everything + optionally one more write, or a second handle on the same directory that loads, writes and is closed BEFORE the first; every Close is clean; a final reopen + full load must hold exactly the acknowledged writes and the replicated entry",
             "identity across restart (VerifC05Identity): instances are made by the PUBLIC NewOrbitDB with neither keystore nor identity given, so the real code opens the keystore datastore under <directory>/<peer id>/keystore (disk model incl. leveldb's directory lock), builds the real go-ipfs-log Keystore (real LRU cache, base64) and runs the real idp.CreateIdentity / OrbitDBIdentityProvider (GetID, signID, SignIdentity); secp256k1 key generation, (un)marshalling and signatures are symbolic stand-ins (fresh keys pairwise distinct, verify(pub(k),m,s) <=> s = sign(k,m)); same directory => same id and public key and the creator-only database is still writable; other directory / in-memory default => another identity whose write is refused; a second instance cannot open the keystore of one still open; Close releases it",
             "clean close / reopen cycles at instance level (VerifC05Reopen): a real orbitDB instance over the real cache manager (cacheleveldown) on the disk model creates a database by name, writes, closes; CYCLES times a new instance on the same directory reopens it by address or by name with Create (the path of the Log / KeyValue / Docs helpers: Create with Overwrite), optionally after an attempt that failed (DAG unreachable while the manifest is read, cancelled context, unregistered store type) and optionally an instance restart after the failure; Load(-1) must yield exactly the acknowledged entries, and a further write succeeds",
         ],
@@ -340,7 +350,7 @@ CHECKS = {
     "C15": {
         "groups": [{
             "pkg": BS, "funcs": ["VerifC15Load"],
-            "params": {"quick": {"T": 3, "P": 1}, "thorough": {"T": 5, "P": 2}},
+            "params": {"quick": {"T": 3, "P": 1}, "thorough": {"T": 5, "P": 1}},
             "max_paths": {"quick": 60000, "thorough": 600000},
             "timeout": {"quick": "10m", "thorough": "60m"},
             "covers": {"VerifC15Load": ["loaded", "stale-remote-heads", "schedules-explored"]},
@@ -351,7 +361,7 @@ CHECKS = {
             "limit = ANY 64-bit integer (symbolic), passed per call or through MaxHistory (then the call argument is -1 or 0)",
             "the real ipfs-log fetcher, NewFromEntryHash, Join (incl. its size trimming) and Values are interpreted; IPFS is a block-store stub",
         ],
-        "outside": ["T beyond the bound", "more than P preemptions"],
+        "outside": ["T beyond the bound", "more than P preemptions (P=2 was tried for the thorough tier: T=2..4 did not finish within 40 minutes - more than 230000 schedules - so the registered bound is P=1)"],
     },
     "C17": {
         "groups": [{
@@ -378,10 +388,10 @@ CHECKS = {
     },
     "C20": {
         "groups": [{
-            "cross_solvers": ["cvc5", "z3-new"], "pkg": PSC, "funcs": ["VerifC20PeersDiff", "VerifC20SelfFilter", "VerifC20WatchPeers", "VerifC20TwoWatchers"],
+            "cross_solvers": ["cvc5", "z3-new"], "pkg": PSC, "funcs": ["VerifC20PeersDiff", "VerifC20SelfFilter", "VerifC20WatchPeers", "VerifC20TwoWatchers", "VerifC20PollError"],
             "params": {"quick": {"P": 3, "S": 3, "M": 3}, "thorough": {"P": 3, "S": 4, "M": 5}},
             "max_paths": {"quick": 60000, "thorough": 400000},
-            "covers": {"VerifC20PeersDiff": ["diffed"], "VerifC20SelfFilter": ["drained"], "VerifC20WatchPeers": ["watched"], "VerifC20TwoWatchers": ["watched"]},
+            "covers": {"VerifC20PeersDiff": ["diffed"], "VerifC20SelfFilter": ["drained"], "VerifC20WatchPeers": ["watched"], "VerifC20TwoWatchers": ["watched"], "VerifC20PollError": ["watch-ended"]},
         }, {
             "pkg": OOO, "funcs": ["VerifC20ChannelID", "VerifC20Monitor", "VerifC20ConnectRace", "VerifC20Reconnect"],
             "params": {"quick": {"L": 2, "M": 3, "P": 1}, "thorough": {"L": 3, "M": 5, "P": 2}},
@@ -406,7 +416,7 @@ CHECKS = {
             "messages: M scripted messages, each from the local peer or a remote one, 1 symbolic byte body; the real WatchMessages / monitorTopic goroutines run in the interpreter",
             "pairwise channel registration: two overlapping Connect calls for the same peer under every schedule with at most P preemptions (the subscribe call is a preemption point); timers run on virtual time (they fire only when nothing else can run)",
             "channel names: peer ids are symbolic strings of length L without '/'; sort.Slice is a stable insertion sort over the real less closure",
-            "polling loop: the real WatchPeers goroutine (one poll per interval on VIRTUAL time) over every sequence of S snapshots of P peers, per-peer transition sequences compared; two watchers on one topic of which one is cancelled at once / after the first event / never (every change still reported exactly once over both); topic reuse, Publish, Peers; public construction path of the direct channel (InitDirectChannelFactory / NewChannel: stream handler registered under the protocol id, frame through that handler, Close removes the handler and closes the emitter)",
+            "polling loop: the real WatchPeers goroutine (one poll per interval on VIRTUAL time) over every sequence of S snapshots of P peers, per-peer transition sequences compared; two watchers on one topic of which one is cancelled at once / after the first event / never (every change still reported exactly once over both); a TRANSIENT error of the underlying Peers() at any poll, after which the membership keeps changing and finally stays put, the watch being ended from outside (whether the watcher gives up at the error or goes on, what it reports per peer is a prefix of that peer's real transitions); topic reuse, Publish, Peers; public construction path of the direct channel (InitDirectChannelFactory / NewChannel: stream handler registered under the protocol id, frame through that handler, Close removes the handler and closes the emitter)",
             "subscription lifetime: Connect with a caller's context, that context ends while the channel object lives on, Connect again: 1..2 later payloads of the remote peer are delivered exactly once; Close ends every monitor",
             "frames: payloads of 0..L symbolic bytes through the real Send -> varint -> handleNewPeer path over a byte-pipe stream stub; plus ANY raw stream of 0..B bytes",
             "pubsubraw adapter: the real NewPubSub / TopicSubscribe / WatchPeers / WatchMessages / Publish / Peers over scripted stand-ins for libp2p-pubsub's concrete Topic, TopicEventHandler and Subscription (methods replaced by name; NextPeerEvent / Next return the next scripted item or block until the context ends): every sequence of up to E join/leave events over P peers, every sequence of up to M messages each from the local peer or a remote one with 0..2 symbolic bytes; a violation in this group is reported on the interpreter's execution alone (confirmation: interpreter-only)",
@@ -446,7 +456,7 @@ CHECKS = {
             "params": {"quick": {"N": 3}, "thorough": {"N": 4}},
             "max_paths": {"quick": 60000, "thorough": 400000},
             "timeout": {"quick": "10m", "thorough": "40m"},
-            "covers": {"VerifC06Replay": ["replayed"]},
+            "covers": {"VerifC06Replay": ["replayed", "caller-edited-the-map"]},
         }, {
             "cross_solvers": ["cvc5", "z3-new"], "pkg": KV, "funcs": ["VerifC06ClockOrder"],
             "covers": {"VerifC06ClockOrder": ["two-writers", "causal-successor"]},
@@ -467,6 +477,7 @@ CHECKS = {
             "store built by the real NewOrbitDBKeyValue/InitBaseStore over stub IPFS/bus/cache; the log handed to the index is a stub exposing Values()",
             "encoding/json replaced by an idealised injective codec driven by the struct tags (omitempty honoured)",
             "clock order (VerifC06ClockOrder): two writers put the same key in entries whose Lamport times are ANY values in [1, 2^40] (symbolic; far beyond what a bounded history reaches), merged through the real Sync; the later one in the (time, writer) order wins, the listing ends with it, and a causal successor (next link, time + 1) overrides both",
+            "caller-owned results: the map returned by All() is emptied and given a foreign key by the caller; a later All() and Get must still equal the replay (mutating the BYTES of a returned value is outside: values are shared with the index on the unchanged tree, by Go convention read-only)",
             "reads during writes (VerifC06ReadDuringWrite): All and Get started at ANY visible operation of a Put / Delete / merge of a remote batch; afterwards All (twice) and Get equal the replay of the log",
         ],
         "outside": ["N beyond the bound", "keys longer than 1 byte / non-UTF-8 keys rewritten by real JSON", "histories longer than STEPS with the real ipfs-log (VerifC01KV checks view == replay of the held log after every step of a two-writer history, which includes the happens-before clause because the log order comes from the real Append/Join clocks)"],
